@@ -101,6 +101,7 @@ func concRoutes() []ref.Route {
 		{Pattern: "svc.mnt.tg.$g.$id", Marker: "mtg", Group: "m${g}"},
 		{Pattern: "svc.mnt.deep.x.$id", Marker: "deep", Group: "deep"},
 		{Pattern: "svc.mnt.thru.$g.$id", Marker: "thru", Group: "t.${g}"},
+		{Pattern: "svc.mnt.wk.$kind.$id.>", Marker: "wk", Group: "k${id}"},
 		{Pattern: "svc.par.$id", Marker: "par", Parallel: true},
 	}
 }
@@ -171,6 +172,7 @@ func (e *concEngine) configure(s *res.Service) {
 	sub := res.NewMux("")
 	sub.Handle("item.$id", h("mitem")...)
 	sub.Handle("tg.$g.$id", with(h("mtg"), res.Group("m${g}"))...)
+	sub.Handle("wk.$kind.$id.>", with(h("wk"), res.Group("k${id}"))...)
 	sub.Route("deep", func(m *res.Mux) {
 		m.Handle("x.$id", with(h("deep"), res.Group("deep"))...)
 	})
@@ -255,7 +257,7 @@ func (e *concEngine) handle(kind string, r *res.Request) {
 	e.body(id, s.Group, s.Parallel)
 }
 
-var concRIDs = []string{"svc.res.%d", "svc.sa.%d", "svc.sb.%d", "svc.tag.g%d.x", "svc.tag.g%d.y", "svc.mnt.item.%d", "svc.mnt.tg.g%d.z", "svc.mnt.deep.x.%d", "svc.mnt.thru.g%d.q", "svc.par.%d"}
+var concRIDs = []string{"svc.mnt.wk.a.%d.t", "svc.mnt.wk.b.%d.t.u", "svc.res.%d", "svc.sa.%d", "svc.sb.%d", "svc.tag.g%d.x", "svc.tag.g%d.y", "svc.mnt.item.%d", "svc.mnt.tg.g%d.z", "svc.mnt.deep.x.%d", "svc.mnt.thru.g%d.q", "svc.par.%d"}
 
 func (e *concEngine) randRID(r *rand.Rand) string {
 	hot := e.cfg.HotGroups
@@ -268,7 +270,7 @@ func (e *concEngine) randRID(r *rand.Rand) string {
 	}
 	t := concRIDs[r.Intn(len(concRIDs))]
 	if r.Intn(6) == 0 {
-		t = concRIDs[0] // keep the default-group resources hot
+		t = "svc.res.%d" // keep the default-group resources hot
 	}
 	return fmt.Sprintf(t, n)
 }
